@@ -115,32 +115,35 @@ def sayL (d : Dbg) (line : List Char) : Dbg := { d with errRev := line :: d.errR
 def origOf (d : Dbg) : Word := d.initial.pc
 
 /-- `add_address_offset` (after the i32 fix): `none` = outside `[orig, 0xFE00)`. -/
-def addAddressOffset (d : Dbg) (address : Word) (offset : Int) : Option Word :=
+def addAddressOffset (orig : Word) (address : Word) (offset : Int) : Option Word :=
   let a : Int := address.toNat + offset
-  if a ≥ (origOf d).toNat ∧ a < 0xFE00 then some (BitVec.ofInt 16 a) else none
+  if a ≥ orig.toNat ∧ a < 0xFE00 then some (BitVec.ofInt 16 a) else none
 
 /-- `expect_userspace_address` -/
-def inUser (d : Dbg) (a : Word) : Bool := (origOf d) ≤ a && a < 0xFE00#16
+def inUser (orig : Word) (a : Word) : Bool := orig ≤ a && a < 0xFE00#16
 
-/-- `resolve_location`: the address, or `none` after printing an error line. -/
-def resolveLocation (env : Env) (d : Dbg) (m : Machine) : MemLoc → Option Word × Dbg
-  | .address a => (some a, d)
+/-- `resolve_location`: the address, or the error line that is printed. -/
+def resolveLocation (env : Env) (orig : Word) (m : Machine) : MemLoc → Except String Word
+  | .address a => .ok a
   | .pcOffset off =>
-    match addAddressOffset d m.pc off with
-    | some a => (some a, d)
-    | none => (none, say d "OutOfBounds::Address")
+    match addAddressOffset orig m.pc off with
+    | some a => .ok a
+    | none => .error "OutOfBounds::Address"
   | .label name off =>
     match env.symtab.lookup name with
-    | none => (none, say d "Labels::NotFound")
+    | none => .error "Labels::NotFound"
     | some line =>
       -- `addr - 1`, then `address + self.orig()` (both checked u16 arithmetic; lines are ≥ 1
       -- and an image that loaded has orig + line - 1 ≤ 0xFFFF)
-      match addAddressOffset d ((line - 1) + origOf d) off with
-      | some a => (some a, d)
-      | none => (none, say d "OutOfBounds::Address")
+      match addAddressOffset orig ((line - 1) + orig) off with
+      | some a => .ok a
+      | none => .error "OutOfBounds::Address"
 
-def requireUser (d : Dbg) (a : Word) : Bool × Dbg :=
-  if inUser d a then (true, d) else (false, say d "OutOfBounds::Address")
+/-- A location that must lie in user space (`resolve_location` + `expect_userspace_address`). -/
+def resolveUser (env : Env) (orig : Word) (m : Machine) (l : MemLoc) : Except String Word :=
+  match resolveLocation env orig m l with
+  | .error e => .error e
+  | .ok a => if inUser orig a then .ok a else .error "OutOfBounds::Address"
 
 def printInteger (d : Dbg) (v : Word) : Dbg := sayL d ('x' :: hex4 v)
 
@@ -186,25 +189,19 @@ def runCommand (env : Env) (d : Dbg) (m : Machine) (w : World) (c : Command) : C
     else .next { d with status := .finish } m w
   | .print (.reg r) => .next (printInteger d (m.getReg r)) m w
   | .print (.mem l) =>
-    match resolveLocation env d m l with
-    | (none, d) => .next d m w
-    | (some a, d) => .next (printInteger d (m.read a)) m w
+    match resolveLocation env (origOf d) m l with
+    | .error e => .next (say d e) m w
+    | .ok a => .next (printInteger d (m.read a)) m w
   | .move (.reg r) v => .next d (m.setReg r v) w
   | .move (.mem l) v =>
-    match resolveLocation env d m l with
-    | (none, d) => .next d m w
-    | (some a, d) =>
-      match requireUser d a with
-      | (false, d) => .next d m w
-      | (true, d) => .next d (m.write a v) w
+    match resolveUser env (origOf d) m l with
+    | .error e => .next (say d e) m w
+    | .ok a => .next d (m.write a v) w
   | .registers => .next (printRegisters d m) m w
   | .goto l =>
-    match resolveLocation env d m l with
-    | (none, d) => .next d m w
-    | (some a, d) =>
-      match requireUser d a with
-      | (false, d) => .next d m w
-      | (true, d) => .next d (m.setPC a) w
+    match resolveUser env (origOf d) m l with
+    | .error e => .next (say d e) m w
+    | .ok a => .next d (m.setPC a) w
   | .eval text =>
     match env.eval m w text with
     | .ok m' w' => .next d m' w'
@@ -213,34 +210,28 @@ def runCommand (env : Env) (d : Dbg) (m : Machine) (w : World) (c : Command) : C
     | .panic s => .panic s
   | .echo s => .next (sayL d (['['] ++ s ++ [']'])) m w
   | .assembly l =>
-    match resolveLocation env d m l with
-    | (none, d) => .next d m w
-    | (some a, d) =>
+    match resolveLocation env (origOf d) m l with
+    | .error e => .next (say d e) m w
+    | .ok a =>
       -- `show_single_line` + `dprintln!(Always)`: the statement text (empty lines are not compared)
       if a < origOf d then .next d m w
       else match env.stmtText (a.toNat - (origOf d).toNat) with
         | some t => .next (if t.isEmpty then d else sayL d t) m w
         | none => .next d m w
   | .breakAdd l =>
-    match resolveLocation env d m l with
-    | (none, d) => .next d m w
-    | (some a, d) =>
-      match requireUser d a with
-      | (false, d) => .next d m w
-      | (true, d) =>
-        let (bs, existed) := bpInsert d.bps { address := a, predefined := false }
-        if existed then .next (say d "Breakpoints::AlreadyExists") m w
-        else .next { d with bps := bs } m w
+    match resolveUser env (origOf d) m l with
+    | .error e => .next (say d e) m w
+    | .ok a =>
+      let r := bpInsert d.bps { address := a, predefined := false }
+      if r.2 then .next (say d "Breakpoints::AlreadyExists") m w
+      else .next { d with bps := r.1 } m w
   | .breakRemove l =>
-    match resolveLocation env d m l with
-    | (none, d) => .next d m w
-    | (some a, d) =>
-      match requireUser d a with
-      | (false, d) => .next d m w
-      | (true, d) =>
-        let (bs, removed) := bpRemove d.bps a
-        if removed then .next { d with bps := bs } m w
-        else .next (say d "Breakpoints::NotFound") m w
+    match resolveUser env (origOf d) m l with
+    | .error e => .next (say d e) m w
+    | .ok a =>
+      let r := bpRemove d.bps a
+      if r.2 then .next { d with bps := r.1 } m w
+      else .next (say d "Breakpoints::NotFound") m w
   | .breakList =>
     if d.bps.isEmpty then .next (say d "Breakpoints::Empty") m w
     else .next (d.bps.foldl (fun d b => sayL d ('x' :: hex4 b.address)) d) m w
@@ -304,6 +295,49 @@ def nextAction (env : Env) (d : Dbg) (m : Machine) (w : World) : NextResult :=
 
 /-! ### `RunEnvironment::run` with a debugger -/
 
+/-- Result of one iteration of the `loop` in `RunEnvironment::run`. -/
+inductive Iter where
+  /-- the loop goes round again; `executed` = address of the instruction this iteration executed -/
+  | cont (attached : Bool) (d : Dbg) (m : Machine) (w : World) (executed : Option Word)
+  /-- `run` returns (PC = 0xFFFF without debugger, or the `exit` command) -/
+  | done (attached : Bool) (d : Dbg) (m : Machine) (w : World)
+  /-- the process exits; `executed` = the instruction that caused it, if any -/
+  | exit (code : Nat) (attached : Bool) (d : Dbg) (m : Machine) (w : World) (executed : Option Word)
+  | panic (site : String)
+
+/-- Fetch, increment, execute (the common tail of the loop body). -/
+def execOne (env : Env) (att : Bool) (d : Dbg) (m : Machine) (w : World) : Iter :=
+  let instr := m.read m.pc
+  let m1 := m.setPC (m.pc + 1)
+  match VM.execute env.stackOn env.minimal instr m1 w with
+  | .ok m' w' => .cont att d m' w' (some m.pc)
+  | .exit c w' => .exit c att d m1 w' (some m.pc)
+  | .panic s => .panic s
+
+/-- One iteration of `RunEnvironment::run`. `attached = false` models `self.debugger = None`
+(the record `d` is kept only so that what it printed remains observable). -/
+def iter (env : Env) (att : Bool) (d : Dbg) (m : Machine) (w : World) : Iter :=
+  if att then
+    match nextAction env d m w with
+    | .panic s => .panic s
+    | .exit c d m w => .exit c true d m w none
+    | .action .stopDebugger d m w => .cont false d m w none
+    | .action .exitProgram d m w => .done true d m w
+    | .action .proceed d m w =>
+      if sigOf (m.read m.pc) == some .halt then .cont true d m w none
+      else if Run.checkPcBounds m != .eq then .cont true d m w none
+      else
+        let d := { d with icount := if d.icount < 4294967295 then d.icount + 1 else d.icount,
+                          nexec := d.nexec + 1 }
+        -- (the debugger has established that PC is in user space and ≠ 0xFFFF)
+        execOne env true d m w
+  else
+    if m.pc == 0xFFFF#16 then .done false d m w
+    else match Run.checkPcBounds m with
+      | .lt => .exit 0xEE false d m w none
+      | .gt => .exit 0xEE false d m w none
+      | .eq => execOne env false d m w
+
 inductive DbgRun where
   /-- `run` returned (normal end or `exit` command); `attached` = debugger still attached -/
   | done (attached : Bool) (d : Dbg) (m : Machine) (w : World) (execs : List Word)
@@ -311,42 +345,21 @@ inductive DbgRun where
   | panic (site : String)
   | fuel (attached : Bool) (d : Dbg) (m : Machine) (w : World) (execs : List Word)
 
+def pushExec (e : Option Word) (ex : List Word) : List Word :=
+  match e with
+  | some pc => pc :: ex
+  | none => ex
+
 /-- One `n` per iteration of the `loop` in `run`; `execs` collects (newest first) the addresses
-of executed instructions. `attached = false` models `self.debugger = None` (the record `d` is
-kept only so that what it printed remains observable). -/
+of executed instructions. -/
 def runLoop (env : Env) : Nat → Bool → Dbg → Machine → World → List Word → DbgRun
   | 0, att, d, m, w, ex => .fuel att d m w ex
-  | n + 1, true, d, m, w, ex =>
-    match nextAction env d m w with
+  | n + 1, att, d, m, w, ex =>
+    match iter env att d m w with
+    | .cont att d m w e => runLoop env n att d m w (pushExec e ex)
+    | .done att d m w => .done att d m w ex
+    | .exit c att d m w e => .exit c att d m w (pushExec e ex)
     | .panic s => .panic s
-    | .exit c d m w => .exit c true d m w ex
-    | .action .stopDebugger d m w => runLoop env n false d m w ex
-    | .action .exitProgram d m w => .done true d m w ex
-    | .action .proceed d m w =>
-      if sigOf (m.read m.pc) == some .halt then runLoop env n true d m w ex
-      else if Run.checkPcBounds m != .eq then runLoop env n true d m w ex
-      else
-        let d := { d with icount := if d.icount < 4294967295 then d.icount + 1 else d.icount,
-                          nexec := d.nexec + 1 }
-        -- common tail (the debugger has established that PC is in user space and ≠ 0xFFFF)
-        let instr := m.read m.pc
-        let m1 := m.setPC (m.pc + 1)
-        match VM.execute env.stackOn env.minimal instr m1 w with
-        | .ok m' w' => runLoop env n true d m' w' (m.pc :: ex)
-        | .exit c w' => .exit c true d m1 w' (m.pc :: ex)
-        | .panic s => .panic s
-  | n + 1, false, d, m, w, ex =>
-    if m.pc == 0xFFFF#16 then .done false d m w ex
-    else match Run.checkPcBounds m with
-      | .lt => .exit 0xEE false d m w ex
-      | .gt => .exit 0xEE false d m w ex
-      | .eq =>
-        let instr := m.read m.pc
-        let m1 := m.setPC (m.pc + 1)
-        match VM.execute env.stackOn env.minimal instr m1 w with
-        | .ok m' w' => runLoop env n false d m' w' (m.pc :: ex)
-        | .exit c w' => .exit c false d m1 w' (m.pc :: ex)
-        | .panic s => .panic s
 
 /-- `Debugger::new` (+ `Breakpoints::with_orig`) -/
 def newDbg (initial : Machine) (bpsRel : List Word) (cmds : List Command) : Dbg :=
